@@ -87,12 +87,13 @@ class _FuseMinMaxBase(RewriteRuleClassBase, abc.ABC):
             MatchResult:
                 Success if we need to replace the pattern, Failure otherwise.
         """
-        del context  # Not used
         check_result = MatchResult()
 
         first_node = out1.producer()
         second_node = out2.producer()
 
+        if self.need_scalars and context.model.opset_imports.get("", 11) < 11:
+            return check_result.fail("Clip takes min/max as inputs only from opset 11.")
         x_shape = first_node.inputs[0].shape
 
         # Ensure all inputs except the first are constants
